@@ -105,6 +105,16 @@ pub fn gen(seed: u64, n: usize) -> Vec<Value> {
             out.push(json!({"as": a, "bs": b, "g": rng.random_bool(0.5), "swap": rng.random_bool(0.5), "sid": false}));
             continue;
         }
+        // two pairs per run: both texts beyond a thousand characters (more than 2^20 matrix cells) with a long common
+        // beginning and a short, different end
+        if i == 29 || i == 31 {
+            let n = rng.random_range(1030..=1100);
+            let tail = |rng: &mut ChaCha8Rng| -> String { (0..rng.random_range(0..=5)).map(|_| ["a", "b", " ", "ä"][rng.random_range(0..4)]).collect() };
+            let (s, t) = if i == 29 { ("ab".to_string(), "ba".to_string()) } else { (tail(&mut rng), tail(&mut rng)) };
+            out.push(json!({"as": format!("{}{}", "x".repeat(n), s), "bs": format!("{}{}", "x".repeat(n), t), "g": rng.random_bool(0.5),
+                            "swap": i == 29 || rng.random_bool(0.5), "sid": false}));
+            continue;
+        }
         let long = i % 250 == 17 || i % 8000 == 2017;
         if long {
             let la = rng.random_range(257..=300);
